@@ -11,6 +11,9 @@ for d in sorted(glob.glob(os.path.join(here, 'seeded', '*'))):
     if args and not any(sid.startswith(a) for a in args):
         continue
     meta = json.load(open(os.path.join(d, 'meta.json')))
+    if meta.get('neutralised_by'):
+        print('%-55s no longer a defect: %s' % (sid, meta['neutralised_by'][:60]), flush=True)
+        continue
     checks = meta['caught_by_quick_checks'] if allc else meta['caught_by_quick_checks'][:1]
     p = subprocess.run([os.path.join(here, 'tools', 'try_mutant.sh'), os.path.join(d, 'patch.diff'), '-'] + checks,
                        stdout=subprocess.PIPE, stderr=subprocess.STDOUT, timeout=3600)
